@@ -1008,8 +1008,12 @@ func (index *fkDeleteCascadeConstraint) ProcessAfterUpdate(*IndexingContext) {
 
 func (index *fkDeleteCascadeConstraint) ProcessBeforeDelete(ctx *IndexingContext) {
 	if !ctx.ErrHolder.HasError() {
-		filter, err := ast.Parse(index.symbol.GetStore(), fmt.Sprintf(`%v = "%v"`, index.symbol.GetName(), string(ctx.RowId)))
-		if ctx.ErrHolder.SetError(err) {
+		// Build the filter from nodes rather than from text. Formatting the id into a filter string breaks
+		// for ids containing quotes, backslashes or control characters, and could match unrelated rows
+		var filter ast.BoolNode = ast.NewInArrayExprNode(
+			ast.NewUntypedSymbolNode(index.symbol.GetName()),
+			ast.NewStringArrayNode([]string{string(ctx.RowId)}))
+		if ctx.ErrHolder.SetError(ast.PostProcess(index.symbol.GetStore(), &filter)) {
 			return
 		}
 
